@@ -94,7 +94,13 @@ def waiter_program(traces):
         return [x[0] for x in b], None          # never waits
     i = kinds_a.index('await')
     if kinds_a[:i] + kinds_a[i + 1:] != kinds_b:
-        raise Inconclusive('wait_paused paths differ in more than the await: %r vs %r' % (kinds_a, kinds_b))
+        # the Notified future may be created on the waiting path only (after the load): creating it on the other path as well changes
+        # nothing another thread can see (the snapshot is private and never awaited), so the waiting path stands for both
+        li = kinds_a.index('load')
+        rest_a = [k for k in kinds_a[li + 1:] if k not in ('notified', 'await')]
+        rest_b = [k for k in kinds_b[li + 1:] if k != 'notified']
+        if kinds_a[:li + 1] != kinds_b[:li + 1] or rest_a != rest_b:
+            raise Inconclusive('wait_paused paths differ in more than the await: %r vs %r' % (kinds_a, kinds_b))
     return kinds_a, i
 
 
